@@ -9,7 +9,7 @@ use sup::*;
 fn be16(a: u8, b: u8) -> u16 { ((a as u16) << 8) | b as u16 }
 fn be32(a: u8, b: u8, c: u8, d: u8) -> u32 { ((a as u32) << 24) | ((b as u32) << 16) | ((c as u32) << 8) | d as u32 }
 
-//# id=decode.total props=C14,C08 kind=complete pair=
+//# id=decode.total fns=TcpHeader::from_bytes props=C14,C08 kind=complete pair=
 #[cfg_attr(kani, kani::proof)]
 #[cfg_attr(kani, kani::unwind(4))]
 #[cfg_attr(vx_replay, test)]
@@ -26,7 +26,7 @@ fn h_tcp_decode_total() {
     vx_cover!(r.is_ok());
 }
 
-//# id=decode.reencode props=C08,C14 kind=complete pair=
+//# id=decode.reencode fns=TcpHeader::from_bytes+TcpHeader::serialize props=C08,C14 kind=complete pair=
 // accepted bytes re-encode to themselves, for inputs whose reserved bits (low nibble of byte 12,
 // top two bits of byte 13) are zero.  The complementary class is the known finding below.
 #[cfg_attr(kani, kani::proof)]
@@ -54,7 +54,7 @@ fn h_tcp_decode_reencode() {
     }
 }
 
-//# id=decode.reencode_reserved_bits props=C08 kind=complete pair= known=K-C08-tcp-reserved
+//# id=decode.reencode_reserved_bits fns=TcpHeader::from_bytes+TcpHeader::serialize props=C08 kind=complete pair= known=K-C08-tcp-reserved
 // KNOWN FINDING class: reserved / CWR / ECE bits set.  The decoder accepts and drops them
 // (RFC 9293 asks receivers to ignore them), so re-encoding differs from the consumed bytes.
 #[cfg_attr(kani, kani::proof)]
@@ -76,7 +76,7 @@ fn h_tcp_decode_reencode_reserved() {
     }
 }
 
-//# id=encode.decode_and_wire_format props=C08 kind=complete pair=
+//# id=encode.decode_and_wire_format fns=TcpHeaderBuilder::*+TcpHeader::serialize+TcpHeader::from_bytes props=C08 kind=complete pair=
 #[cfg_attr(kani, kani::proof)]
 #[cfg_attr(kani, kani::unwind(22))]
 #[cfg_attr(vx_replay, test)]
@@ -125,7 +125,7 @@ fn h_tcp_encode_decode() {
     }
 }
 
-//# id=control.bits props=C08,C17,C03,C01 kind=complete pair=
+//# id=control.bits fns=Control::* props=C08,C17,C03,C01 kind=complete pair=
 // Control accessors / setters are the six flag bits of RFC 9293, independent of each other
 #[cfg_attr(kani, kani::proof)]
 #[cfg_attr(vx_replay, test)]
@@ -172,7 +172,7 @@ fn rfc1071_tcp_sum(b: &[u8; 20], s: &[u8; 4], d: &[u8; 4], tcp_len: u16) -> u16 
     t as u16
 }
 
-//# id=checksum.emitted_segment_verifies props=C18 kind=complete features=compute_checksum tier=thorough pair=
+//# id=checksum.emitted_segment_verifies fns=TcpHeaderBuilder::build+TcpHeader::serialize+Checksum::* props=C18 kind=complete features=compute_checksum tier=thorough pair=
 #[cfg(feature = "compute_checksum")]
 #[cfg_attr(kani, kani::proof)]
 #[cfg_attr(kani, kani::unwind(22))]
@@ -195,7 +195,7 @@ fn h_ck_tcp_emit_verifies() {
     assert!(TcpHeader::from_bytes(b.into_iter(), 20, sa, da).is_ok());
 }
 
-//# id=checksum.decoder_accepts_conforming_zero_field props=C18 kind=complete features=compute_checksum pair=
+//# id=checksum.decoder_accepts_conforming_zero_field fns=TcpHeader::from_bytes+Checksum::matches props=C18 kind=complete features=compute_checksum pair=
 // class: a conforming sender whose other words sum to 0xffff transmits the checksum 0x0000
 #[cfg(feature = "compute_checksum")]
 #[cfg_attr(kani, kani::proof)]
@@ -210,7 +210,7 @@ fn h_ck_tcp_accepts_conforming_zero_field() {
     assert!(TcpHeader::from_bytes(b.into_iter(), 20, Ipv4Address::new(s), Ipv4Address::new(d)).is_ok());
 }
 
-//# id=checksum.decoder_accepts_conforming props=C18 kind=complete features=compute_checksum tier=thorough pair=
+//# id=checksum.decoder_accepts_conforming fns=TcpHeader::from_bytes+Checksum::* props=C18 kind=complete features=compute_checksum tier=thorough pair=
 #[cfg(feature = "compute_checksum")]
 #[cfg_attr(kani, kani::proof)]
 #[cfg_attr(kani, kani::unwind(22))]
@@ -224,7 +224,7 @@ fn h_ck_tcp_accepts_conforming() {
     assert!(TcpHeader::from_bytes(b.into_iter(), 20, Ipv4Address::new(s), Ipv4Address::new(d)).is_ok());
 }
 
-//# id=checksum.decoder_rejects_corruption props=C18 kind=complete features=compute_checksum tier=thorough pair=
+//# id=checksum.decoder_rejects_corruption fns=TcpHeader::from_bytes+Checksum::* props=C18 kind=complete features=compute_checksum tier=thorough pair=
 #[cfg(feature = "compute_checksum")]
 #[cfg_attr(kani, kani::proof)]
 #[cfg_attr(kani, kani::unwind(22))]
